@@ -6,8 +6,10 @@ import Fbr.Lemmas.PtFresh
 
 namespace Fbr.PtRefs
 
+variable {nf : Bool}
+
 /-- the root entry survives everything except `destroy` -/
-theorem Tr.rootLive {e : Env} {b : Bool} {s s' : St} {sp sp' : Spec} (h : Tr e b s sp s' sp')
+theorem Tr.rootLive {e : Env} {b : Bool} {s s' : St} {sp sp' : Spec} (h : Tr e nf b s sp s' sp')
     (hb : b = false) (hr : (mget s.data ROOT_ID).isSome = true) :
     (mget s'.data ROOT_ID).isSome = true := by
   induction h with
@@ -31,7 +33,7 @@ theorem Tr.rootLive {e : Env} {b : Bool} {s s' : St} {sp sp' : Spec} (h : Tr e b
 
 /-- without `use_host_ino`, the handle → number map never changes an entry (between imports) -/
 theorem Tr.hStable {e : Env} (hk : e.useHostIno = false) {b : Bool} {s s' : St} {sp sp' : Spec}
-    (h : Tr e b s sp s' sp') (hb : b = false) :
+    (h : Tr e nf b s sp s' sp') (hb : b = false) :
     ∀ k i, mget s.byHandle k = some i → mget s'.byHandle k = some i := by
   induction h with
   | frame _ _ _ _ hy => intro k i hm; rw [hy]; exact hm
@@ -63,7 +65,7 @@ theorem Tr.hStable {e : Env} (hk : e.useHostIno = false) {b : Bool} {s s' : St} 
 
 /-- without `use_host_ino` and without file handles, the id → number map never changes an entry -/
 theorem Tr.idStable {e : Env} (hk : e.useHostIno = false) {b : Bool} {s s' : St} {sp sp' : Spec}
-    (h : Tr e b s sp s' sp') (hb : b = false) (hnh : s'.byHandle = []) :
+    (h : Tr e nf b s sp s' sp') (hb : b = false) (hnh : s'.byHandle = []) :
     ∀ k i, mget s.byId k = some i → mget s'.byId k = some i := by
   induction h with
   | frame _ _ _ hbi => intro k i hm; rw [hbi]; exact hm
@@ -120,7 +122,7 @@ theorem getAlt_none_handle {s : St} {id : InodeId} {h : FhId} (hg : getAlt s id 
   simp [getByHandle, hb, hd] at hg
 
 theorem Tr.inj {e : Env} (hk : e.useHostIno = false) {b : Bool} {s s' : St} {sp sp' : Spec}
-    (h : Tr e b s sp s' sp') (hb : b = false) (inj : Inj s) : Inj s' := by
+    (h : Tr e nf b s sp s' sp') (hb : b = false) (inj : Inj s) : Inj s' := by
   induction h with
   | frame hd _ _ hbi hy =>
     exact ⟨by rw [hd, hbi]; exact inj.i1, by rw [hd, hy]; exact inj.i2⟩
@@ -265,7 +267,7 @@ theorem inj_afterInit (e : Env) (root : HAns) : Inj (afterInit e root) := by
 theorem fresh_afterInit (e : Env) (hk : e.useHostIno = false) (root : HAns) :
     Fresh (afterInit e root) ∧ (afterInit e root).clobbered = false := by
   rw [afterInit_eq]
-  exact (importRoot_tr e St.fresh Spec.init root).fresh hk fresh_fresh rfl
+  exact (importRoot_tr (nf := false) e St.fresh Spec.init root (fun x => by cases x)).fresh hk fresh_fresh rfl
 
 theorem getAlt_fd_byId {s : St} {id : InodeId} {i : Ino} {d : IData}
     (hg : getAlt s id none = some (i, d)) : mget s.byId id = some i := by
